@@ -54,14 +54,10 @@ M("c01-extra-guard", ["C01"], VM,
 M("c01-compare-constant", ["C01"], VM,
   "if time.monotonic() - self.start_time > self.time_limit:\n                raise TimeLimitError", "if time.monotonic() - self.start_time > 3600:\n                raise TimeLimitError",
   [("C01", "C01-R2", "raise TimeLimitError")])
-M("c01-lookahead-poll-dropped", ["C01", "C10"], RV,
-  "        stack: List[Tuple] = []\n        step_count = 0\n\n        while True:\n            step_count += 1\n            if step_count % self.poll_interval == 0:\n                if self.poll_callback and self.poll_callback():\n                    raise RegexTimeoutError(\"Regex execution timed out\")\n\n            # Same hard step limit as the main matcher (ReDoS protection)\n            if step_count > self.step_limit:\n                return None\n",
-  "        stack: List[Tuple] = []\n        step_count = 0\n\n        while True:\n            step_count += 1\n\n            # Same hard step limit as the main matcher (ReDoS protection)\n            if step_count > self.step_limit:\n                return None\n",
-  [("C01", "C01-R3", "_execute_lookahead")])
 M("c01-main-poll-only-unanchored", ["C01"], RV,
   "            if step_count % self.poll_interval == 0:\n                if self.poll_callback and self.poll_callback():\n                    raise RegexTimeoutError(\"Regex execution timed out\")\n\n            # Hard step limit",
   "            if step_count % self.poll_interval == 0 and not anchored:\n                if self.poll_callback and self.poll_callback():\n                    raise RegexTimeoutError(\"Regex execution timed out\")\n\n            # Hard step limit",
-  [("C01", "C01-R3", "RegexVM._execute:"), ])
+  [("C01", "C01-R3", "RegexVM._run:"), ])
 M("c01-regexp-ctor-no-callback", ["C01"], CX,
   "            return JSRegExp(pattern, flags, poll_callback)", "            return JSRegExp(pattern, flags)",
   [("C01", "C01-R4", "regexp_constructor_fn")])
@@ -312,10 +308,10 @@ M("c08-in-own-only", ["C08"], VM,
 M("c09-main-loop-drops-backref-i", ["C09", "C04"], RV,
   "            elif opcode == Op.BACKREF_I:\n                group_idx = instr[1]\n                if group_idx >= len(captures):\n                    if not stack:\n                        return None\n                    pc, sp, captures, registers = self._backtrack(stack)\n                    continue\n\n                start, end = captures[group_idx]\n                if start == -1 or end == -1:\n                    pc += 1\n                    continue\n\n                captured = string[start:end]\n                if sp + len(captured) > len(string):\n                    if not stack:\n                        return None\n                    pc, sp, captures, registers = self._backtrack(stack)\n                    continue\n\n                if string[sp : sp + len(captured)].lower() == captured.lower():\n                    sp += len(captured)\n                    pc += 1\n                else:\n                    if not stack:\n                        return None\n                    pc, sp, captures, registers = self._backtrack(stack)\n\n            elif opcode == Op.LOOKAHEAD:",
   "            elif opcode == Op.LOOKAHEAD:",
-  [("C09", "C09-R1", r"RegexVM\._execute:BACKREF_I"), ("C04", "C04-R1", "Unknown opcode")])
+  [("C09", "C09-R1", r"RegexVM\._run:BACKREF_I"), ("C04", "C04-R1", "Unknown opcode")])
 M("c10-main-step-limit-dropped", ["C10"], RV,
   "            # Hard step limit for ReDoS protection\n            if step_count > self.step_limit:\n                return None  # Fail gracefully on ReDoS\n", "",
-  [("C10", "C10-R2$", r"RegexVM\._execute:matcher-loop:step-budget")])
+  [("C10", "C10-R2$", r"RegexVM\._run:matcher-loop:step-budget")])
 M("c10-star-no-advance-guard", ["C10"], RC,
   "    def _needs_advance_check(self, node: Node) -> bool:", "    def _needs_advance_check_unused(self, node: Node) -> bool:\n        return False\n\n    def _needs_advance_check(self, node: Node) -> bool:\n        if isinstance(node, Group):\n            return False\n        return self._needs_advance_check_impl(node)\n\n    def _needs_advance_check_impl(self, node: Node) -> bool:",
   [("C10", "C10-R4", "_needs_advance_check")])
@@ -447,12 +443,6 @@ T("t-pop-args-helper", ["C02", "C05", "C07", "C11", "C15"], VM,
 T("t-new-opcode-nop", ["C02", "C04", "C05", "C14"], "src/microjs/opcodes.py",
   "    STORE_CELL = auto()  # Store to cell: arg = cell slot (for outer function)\n", "    STORE_CELL = auto()  # Store to cell: arg = cell slot (for outer function)\n    NOP = auto()  # No operation\n",
   more=[(VM, "        elif op == OpCode.CATCH:\n            # Exception is on stack\n            pass\n", "        elif op == OpCode.CATCH:\n            # Exception is on stack\n            pass\n\n        elif op == OpCode.NOP:\n            pass\n", 1)])
-T("t-regex-limits-helper", ["C01", "C10"], RV,
-  "            step_count += 1\n            if step_count % self.poll_interval == 0:\n                if self.poll_callback and self.poll_callback():\n                    raise RegexTimeoutError(\"Regex execution timed out\")\n\n            # Same hard step limit as the main matcher (ReDoS protection)\n            if step_count > self.step_limit:\n                return False\n",
-  "            step_count += 1\n            self._poll(step_count)\n\n            # Same hard step limit as the main matcher (ReDoS protection)\n            if step_count > self.step_limit:\n                return False\n",
-  more=[(RV, "    def _backtrack(self, stack: List[Tuple]) -> Tuple:\n", "    def _poll(self, step_count: int) -> None:\n        if step_count % self.poll_interval == 0:\n            if self.poll_callback and self.poll_callback():\n                raise RegexTimeoutError(\"Regex execution timed out\")\n\n    def _backtrack(self, stack: List[Tuple]) -> Tuple:\n", 1)],
-  note="poll moved into a helper that receives the local counter")
-
 # ------------------------------------------------------------------ rules added after the seeded changes
 M("c10-jsregexp-init-no-conversion", ["C10"], VA,
   "        try:\n            self._internal = InternalRegExp(pattern, flags, poll_callback)\n        except RegExpError as e:\n            raise JSSyntaxError(f\"Invalid regular expression: /{pattern}/: {e}\")\n",
@@ -462,10 +452,6 @@ M("c10-test-no-overflow-translation", ["C10"], VM,
   "                return re.test(string)\n            except RegexTimeoutError:\n                raise TimeLimitError(\"Regex execution timeout\")\n            except RegexStackOverflow:\n                raise JSRangeError(\"Regular expression too complex\")\n",
   "                return re.test(string)\n            except RegexTimeoutError:\n                raise TimeLimitError(\"Regex execution timeout\")\n",
   [("C10", "C10-R1b", "test_fn")])
-M("c10-lookahead-step-limit-dropped", ["C10"], RV,
-  "            # Same hard step limit as the main matcher (ReDoS protection)\n            if step_count > self.step_limit:\n                return None\n",
-  "",
-  [("C10", "C10-R2$", r"_execute_lookahead:matcher-loop:step-budget")])
 M("c07-generic-handler-swallows-limits", ["C01"], VM,
   "        except (TimeLimitError, MemoryLimitError):\n            raise\n        except JSError as e:",
   "        except JSError as e:",
@@ -477,14 +463,14 @@ M("c07-syntax-error-not-converted", ["C07", "C19"], VM,
 M("c09-lookahead-shallow-snapshot", ["C09"], RV,
   "                    (alt_pc, sp, [c.copy() for c in captures], registers.copy())",
   "                    (alt_pc, sp, captures.copy(), registers.copy())",
-  [("C09", "C09-R4", "snapshots")], count=3)
+  [("C09", "C09-R4", "snapshots")], count=1)
 M("c09-registers-alias-snapshot", ["C09"], RV,
   "                    (pc + 1, sp, [c.copy() for c in captures], registers.copy())",
   "                    (pc + 1, sp, [c.copy() for c in captures], registers)",
-  [("C09", "C09-R4", "snapshots")], count=3)
+  [("C09", "C09-R4", "snapshots")], count=1)
 T("t-snapshot-list-ctor", ["C09"], RV,
   "                    (alt_pc, sp, [c.copy() for c in captures], registers.copy())",
-  "                    (alt_pc, sp, [list(c) for c in captures], list(registers))", count=3)
+  "                    (alt_pc, sp, [list(c) for c in captures], list(registers))", count=1)
 M("c20-copy-in-constant-for-nonglobal", ["C20"], VA,
   "        self._internal.lastIndex = self.lastIndex\n        result = self._internal.test(string)",
   "        self._internal.lastIndex = self.lastIndex if self._internal.global_ else 0\n        result = self._internal.test(string)",
@@ -526,7 +512,7 @@ S("seed-C06-a", ["C06"], "seeded/C06-a/patch.diff", [("C06", "C06-R4", "_to_u?in
 S("seed-C07-a", ["C07"], "seeded/C07-a/patch.diff", [("C07", "C07-R4b", "finally-scope")])
 S("seed-C07-b", ["C07"], "seeded/C07-b/patch.diff", [("C07", "C07-R2c", "TRY_START")])
 S("seed-C08-a", ["C08"], "seeded/C08-a/patch.diff", [("C08", "C08-R7", "_chain")])
-S("seed-C09-a", ["C09"], "seeded/C09-a/patch.diff", [("C09", "C09-R4", "_execute_lookahead")])
+S("seed-C09-a", ["C09"], "seeded/C09-a/patch.diff", [("C09", "C09-R4", "snapshots")], note="obsolete: the sub-matcher it slipped on was removed by repo commit 7133da3 (see NOTES.md); skipped")
 S("seed-C10-a", ["C10"], "seeded/C10-a/patch.diff", [("C10", "C10-R2a", "matcher-loop")])
 S("seed-C11-a", ["C11"], "seeded/C11-a/patch.diff", [("C11", "C11-R5b", "seen-set-scope")])
 S("seed-C12-a", ["C12"], "seeded/C12-a/patch.diff", [("C12", "C12-R3", "_current_vm|_vm")])
@@ -588,3 +574,21 @@ M("c18-to-number-without-grammar", ["C18", "C04"], VA,
 M("c18-to-string-host-repr", ["C18"], VA,
   "        return _float_to_string(value)\n", "        return repr(value)\n",
   [("C18", "C18-R4", "to_string")])
+
+# ------------------------------------------------------------------ one matcher loop for patterns and lookaround bodies (fix 7133da3)
+M("c09-lookahead-body-shares-captures", ["C09"], RV,
+  "                inner = self._run(string, pc + 1, sp, [c.copy() for c in captures])\n                if inner is not None:\n                    captures = inner[1]",
+  "                inner = self._run(string, pc + 1, sp, captures)\n                if inner is not None:\n                    captures = inner[1]",
+  [("C09", "C09-R4", "snapshots")])
+T("t-regex-poll-helper", ["C01", "C10"], RV,
+  "            step_count += 1\n            if step_count % self.poll_interval == 0:\n                if self.poll_callback and self.poll_callback():\n                    raise RegexTimeoutError(\"Regex execution timed out\")\n",
+  "            step_count += 1\n            self._poll(step_count)\n",
+  more=[(RV, "    def _backtrack(self, stack: List[Tuple]) -> Tuple:\n", "    def _poll(self, step_count: int) -> None:\n        if step_count % self.poll_interval == 0:\n            if self.poll_callback and self.poll_callback():\n                raise RegexTimeoutError(\"Regex execution timed out\")\n\n    def _backtrack(self, stack: List[Tuple]) -> Tuple:\n", 1)],
+  note="poll moved into a helper that receives the local counter")
+M("c10-lookbehind-accepts-any-end", ["C09"], RV,
+  "                if must_end_at is not None and sp != must_end_at:\n", "                if False:\n",
+  [], note="value-level: which end position a lookbehind accepts is matching semantics, not decided statically")
+M("c09-lookbehind-attempts-share-captures", ["C09"], RV,
+  "                string, start_pc, start_pos, [c.copy() for c in captures], end_pos\n",
+  "                string, start_pc, start_pos, captures, end_pos\n",
+  [("C09", "C09-R4", "_run_lookbehind:snapshots")])
